@@ -178,7 +178,10 @@ func (s *Session) Run(b *Behaviour) error {
 			s.openCursors(&b.Steps[i])
 		}
 		if err := s.Step(&b.Steps[i]); err != nil {
-			return fmt.Errorf("step %d (%s): %w", i, b.Steps[i].A, err)
+			// the reference enables this operation here; the hub refusing it is an answer like any other
+			s.Checks++
+			s.diverge("step-refused", map[string]any{"index": i, "step": b.Steps[i].A}, "the operation is accepted", err.Error(), "")
+			return nil
 		}
 	}
 	if err := s.CheckObs(&b.Obs); err != nil {
@@ -347,7 +350,13 @@ func (s *Session) Step(st *Step) error {
 	case "tick":
 		s.tick(1, 0)
 	case "create":
-		if _, err := s.W.Dsm.CreateDataset(s.DsReal(st.Ds), nil); err != nil {
+		// every other behaviour creates its datasets with public namespaces (a creation-time setting that is
+		// written back through core.Dataset): no answer of the reference depends on it
+		var cfg *server.CreateDatasetConfig
+		if s.Variant%2 == 1 {
+			cfg = &server.CreateDatasetConfig{PublicNamespaces: []string{EntNS, PropNS}}
+		}
+		if _, err := s.W.Dsm.CreateDataset(s.DsReal(st.Ds), cfg); err != nil {
 			return err
 		}
 		s.tick(1, 0)
